@@ -18,6 +18,12 @@ root.get(extended key) identity, order by priority then insertion, duplicate
 refusal, removal, model-level round trip - and the tree is compared with a
 reference tree kept from the implementation's own accept / reject answers.
 It classifies disagreements and is used to find and shrink failing inputs.
+
+Second tie (harness/c18lib.py): on every run the method bodies of parameters.py and
+model.py of the tree under test are translated (Python `ast`, fail-closed) into
+Gallina and proved equal to the hand-written model (coq/Params/GenAgree.v); the
+last section of Props/C18.v restates the main theorems over the generated
+functions.  When that tie breaks the same oracle searches for a failing input.
 """
 from __future__ import annotations
 
@@ -29,9 +35,11 @@ from pathlib import Path
 
 sys.path.insert(0, str(Path(__file__).resolve().parent))
 import common as C
+import c18lib as L
 
 PID = "C18"
-TARGETS = ["Params/Model.vo", "Params/Proofs.vo", "Props/C18.vo"]
+# built in coq/ (independent of the source text); Gen_Params / GenAgree / Props are compiled per tree (c18lib.ParamsTree)
+TARGETS = ["Params/Model.vo", "Params/Proofs.vo"]
 QCLS = ["Length", "Duration", "Speed"]          # class tag = index
 EXN = ["TypeError", "ValueError", "KeyError", "NotImplementedError", "AttributeError"]
 KINDS = ["map", "int", "float", "str", "bool", "qty", "sel", "unit"]
@@ -1044,7 +1052,17 @@ def emit_locate(path: Path, cases):
 
 def main(tier: str) -> int:
     run = C.Run(PID, tier)
-    proofs_ok = run.check_proofs(TARGETS, extra_tb=[
+    try:
+        tree = L.ParamsTree().prepare()
+    except Exception as exc:  # noqa: BLE001
+        run.violation("translated-model-not-buildable",
+                      f"the model could not be regenerated from the source: {type(exc).__name__}: {exc}",
+                      {"unchecked": "coq/Params/GenAgree.v"}, found_input=False)
+        return run.finish()
+    # the proof re-check (coqc, ~10 s) runs beside the implementation runs below
+    from concurrent.futures import ThreadPoolExecutor
+    pool = ThreadPoolExecutor(max_workers=1)
+    proofs = pool.submit(L.check_proofs, run, tree, TARGETS, extra_tb=[
         "Python floats enter the model as the exact rationals they denote (float.as_integer_ratio) plus NaN, +-inf, -0.0; "
         "parameters.py only stores and compares values and Python compares int with float exactly",
         "sorted() modelled as stable insertion sort (proved a stable sort); display priorities are finite non-NaN numbers",
@@ -1057,6 +1075,7 @@ def main(tier: str) -> int:
     try:
         mods()
     except Exception as exc:   # noqa: BLE001
+        proofs.result()
         run.violation("harness-cannot-run-implementation", f"importing the implementation failed: {type(exc).__name__}: {exc}",
                       {}, found_input=False)
         return run.finish()
@@ -1100,6 +1119,7 @@ def main(tier: str) -> int:
             account(ex, obs)
     except Exception as exc:   # noqa: BLE001
         import traceback
+        proofs.result()
         run.violation("harness-cannot-run-implementation",
                       f"running a sequence on the implementation failed: {type(exc).__name__}: {exc}",
                       {"trace": traceback.format_exc()[-1500:]}, found_input=False)
@@ -1114,6 +1134,7 @@ def main(tier: str) -> int:
         emit_cases(f, cases[s:s + shard])
         files.append(f)
     results = C.coqc_many(files)
+    proofs_ok = proofs.result()
     mism = []
     evaluable = True
     for si, (rc, out) in enumerate(results):
@@ -1126,9 +1147,11 @@ def main(tier: str) -> int:
             break
         mism += [si * shard + i for i in lst]
 
-    # ---- the correspondence broke but the clause oracle saw nothing yet: search harder for a failing input
+    # ---- the correspondence or the tie to the source text broke but the clause oracle saw nothing yet:
+    #      search harder for a failing input
     searched = 0
-    if (mism or not proofs_ok) and not fails and evaluable:
+    tie = tree.broken()
+    if (mism or not proofs_ok or tie) and not fails and evaluable:
         extra = 8000 if tier == "quick" else 40000
         rng2 = random.Random(run.seed * 7919 + 1818)
         for i in range(extra):
@@ -1147,6 +1170,8 @@ def main(tier: str) -> int:
     run.cov["set_attempts_by_class_valuetype_outcome"] = dict(sorted(set_hist.items()))
     run.cov["parameters_in_final_trees_by_class"] = cls_sets
     run.cov["extra_sequences_searched_with_oracle_only"] = searched
+    run.cov["source_translation"]["tie"] = ({"status": "broken", **{k: v for k, v in tie.items() if k != "failures"}}
+                                            if tie else {"status": "checked"})
     for obs in cases[n_corpus:n_corpus + 2]:
         run.add_sample({"ops": [o[0] for o in obs][:8], "impl_outputs": [o[1] for o in obs][:8]})
 
@@ -1181,6 +1206,8 @@ def main(tier: str) -> int:
                       {"ops": [o[0] for o in obs][:at + 1], "impl_outputs": [o[1] for o in obs][:at + 1],
                        "first_disagreeing_op": at, "impl_dump_after_it": next((o[2] for o in reversed(obs[:at + 1]) if o[2] is not None), None),
                        "relation": "Params.Model.case_ok repaired", "how": HOW}, found_input=False)
+    if tie and not fails:
+        L.report_broken_tie(run, tree, {"model_impl_mismatching_sequences": len(mism), "sequences_searched": len(cases) + searched})
     if not proofs_ok and not run.violations:
         run.violation("proof-broken", "a C18 proof obligation no longer checks: " + getattr(run, "proof_log", "")[-800:],
                       {"theorems": run.cov.get("theorems")}, found_input=False)
